@@ -342,6 +342,16 @@ func casesFor(names []string, seed uint64, round, per int) []tcase {
 			}
 		}
 	}
+	// 1b. one unit per guard of the parser (syntax.go guardSweep), every round with fresh layouts
+	for _, name := range names {
+		for _, g := range guardSweepTargets {
+			if g == name {
+				for _, b := range guardSweep(r, name, 3) {
+					cs = append(cs, tcase{name, b, argsFor(r, name)})
+				}
+			}
+		}
+	}
 	// 2. mutants and soups, n rounds over all targets
 	if per < 8 {
 		per = 8
